@@ -13,6 +13,8 @@ pub mod ops;
 pub mod replacer;
 pub mod source;
 pub mod traversal;
+#[cfg(feature = "verif-hooks")]
+pub mod verif;
 
 #[doc(hidden)]
 pub mod pinned;
